@@ -164,6 +164,26 @@ Theorem C05_copybuffer_bufsz_independent :
 Proof. exact copy_buffer_bufsz_indep. Qed.
 Print Assumptions C05_copybuffer_bufsz_independent.
 
+(* the two verification paths agree: content.ReadAll (memory store, FetchAll) and
+   ioutil.CopyBuffer (OCI layout, file store; any buffer size) accept exactly the same
+   (reader, descriptor) pairs and hand on the same bytes; a memory store and an OCI layout
+   that do not hold the descriptor yet accept the same pushes and store the same bytes *)
+Theorem C05_paths_agree :
+  forall (H : str -> str -> str) comb fuel evs bufsz dg sz buf,
+    (1 <= bufsz)%nat -> (ev_weight evs < fuel)%nat ->
+    (fst (read_all H comb true fuel (mkBase evs None) dg sz) = (None, buf) <->
+     fst (copy_buffer H comb true fuel (mkBase evs None) bufsz dg sz) = (None, buf)).
+Proof. exact paths_agree. Qed.
+Print Assumptions C05_paths_agree.
+
+Theorem C05_stores_agree :
+  forall (H : str -> str -> str) comb fuel m s d evs buf,
+    (ev_weight evs < fuel)%nat -> mem_get m d = None -> oci_get s (d_dg d) = None ->
+    (mem_push H comb true fuel m d (mkBase evs None) = (None, (d, buf) :: m) <->
+     oci_push H comb true fuel s d (mkBase evs None) = (None, (d_dg d, buf) :: s)).
+Proof. exact stores_agree. Qed.
+Print Assumptions C05_stores_agree.
+
 (* malformed or unsupported digest, negative size, reader shorter than Size, first
    Size bytes hashing to something else, bytes beyond Size: always an error *)
 Theorem C05_trailing_short_malformed_rejected :
